@@ -19,6 +19,7 @@ fn main() {
         "C14" => vh::c14::main(mode),
         "C13" => vh::c13::main(mode),
         "C15" => vh::c15::main(mode),
+        "C05" => vh::c05::main(mode),
         _ => {
             eprintln!("unknown property {id}");
             2
